@@ -16,7 +16,7 @@ from ..rawsnap import file_sha, node_digests, rawsnap
 CALLS = ["snap", "lazy", "set_name", "set_flag", "set_values", "set_vertices", "set_metadata", "set_attr", "set_type",
          "create_group", "create_object", "add_data", "add_file", "add_comment", "remove_ws", "remove_parent",
          "copy_same", "copy_other", "pg_add", "pg_remove", "move", "close_open", "fetch_active", "fetch_active_closed",
-         "input_file", "monitored_copy", "path2workspace", "header"]
+         "input_file", "monitored_copy", "path2workspace", "header", "helper_view"]
 WRITERS = {"set_name", "set_flag", "set_values", "set_vertices", "set_metadata", "set_attr", "set_type", "create_group",
            "create_object", "add_data", "add_file", "add_comment", "remove_ws", "remove_parent", "copy_same", "pg_add",
            "pg_remove", "move", "header"}
@@ -35,7 +35,8 @@ def program_strategy(draw, max_calls=25):
     call = st.fixed_dictionaries({"call": st.sampled_from(CALLS), "who": st.integers(0, 40), "to": st.integers(0, 40),
                                   "seed": st.lists(st.integers(-9, 9), min_size=1, max_size=5)})
     calls = draw(st.lists(call, min_size=1, max_size=max_calls))
-    return {"build": build, "ops": calls}
+    # a file without the optional Root link is a valid geoh5 file too (reader rebuilds the root in memory)
+    return {"build": build, "ops": calls, "drop_root": draw(st.integers(0, 3)) == 0}
 
 
 class C10(Check):
@@ -74,6 +75,18 @@ class C10(Check):
             res.label("build-failed")
             return res
         path = world.path
+        # the user's own Workspace object on that file: built with the default mode, closed again
+        # (created while the file is complete, so that closing it writes nothing)
+        self.third = Workspace(path)
+        self.third.close()
+        if program.get("drop_root"):
+            import h5py
+
+            with h5py.File(path, "r+") as h5:
+                proj = h5[list(h5)[0]]
+                if "Root" in proj:
+                    del proj["Root"]
+            res.label("file:no-root-link")
         twin = env.new_path("twin")
         shutil.copy(path, twin)
         uids = [u for u in world.nodes if u != world.root]
@@ -107,6 +120,9 @@ class C10(Check):
                 if out_ro == "skip" or out_tw == "skip":
                     res.count("skipped_calls")
                     continue
+                if out_ro in ("ViewNotReadOnly", "ViewAcceptedWrite", "LeftOpen", "OpenedWritable"):
+                    res.fail(f"C10/helper-not-read-only/{name}//{out_ro}", f"step {step}: {call}: {out_ro}")
+                    return res
                 sha1 = file_sha(path)
                 if sha1 != sha0:
                     res.fail(f"C10/bytes-changed/{name}//", f"step {step}: call {call} changed the bytes of the read-only file (raised={out_ro})")
@@ -136,7 +152,7 @@ class C10(Check):
             res.count("twin_changing_calls", changed_twin)
             return res
         finally:
-            env.close_quietly(ro, tw)
+            env.close_quietly(ro, tw, getattr(self, "third", None))
 
     # ------------------------------------------------------------------ calls
     def do_call(self, ws, call, uids, kinds, path, writable):
@@ -291,6 +307,23 @@ class C10(Check):
                 ws.close()
                 with fetch_active_workspace(ws) as w:
                     len(w.objects)
+            elif name == "helper_view":
+                if writable:
+                    return "ok"
+                ws.close()
+                third = self.third  # built with the default mode and closed
+                try:
+                    with fetch_active_workspace(third, "r") as view:  # a read-only view is requested
+                        mode = view.geoh5.mode
+                        if mode != "r":
+                            return "ViewNotReadOnly"
+                        try:
+                            ContainerGroup.create(view, name="through_view")
+                            return "ViewAcceptedWrite"
+                        except Exception:
+                            pass
+                finally:
+                    env.close_quietly(third)
             elif name == "path2workspace":
                 if writable:
                     return "ok"
